@@ -645,6 +645,12 @@ func readSession(eng flows.Engine, sessionAssets flows.SessionAssets, data json.
 		}
 	}
 
+	// load the parent run of a trigger which has one, as the session that was written had it, so that a restored
+	// session shows the same parent before and after its next engine call (even one that rejects a resume)
+	if err = s.prepareForSprint(); err != nil {
+		return nil, err
+	}
+
 	// read our contact
 	if e.Contact != nil {
 		if s.contact, err = flows.ReadContact(s.Assets(), *e.Contact, missing); err != nil {
